@@ -33,7 +33,7 @@ RULE = ("Sources from the corpus (W1), rendered documents (W2), fault-injected (
         " Also: every source also through a stream whose parser stops at the first error; envelopes yielded for earlier sources of a stream are re-checked for later modification.")
 ASSUMPTIONS = ["R7 encodes the Cucumber Messages shapes this library emits and accepts all 275 golden envelopes (setup_cmd)",
                "the content oracle for gherkinDocument/pickle envelopes is a direct parse+compile with fresh objects: C17 is about the stream layer; parser and compiler content are C03-C11"]
-DECIDING = ["enum_calls", "envelopes_validated", "corpus_envelopes_compared", "streams_checked", "cli_runs"]
+DECIDING = ["enum_calls", "envelopes_validated", "corpus_envelopes_compared", "streams_checked", "cli_runs", "isolated_envelopes_compared"]
 OPTS = [(a, b, c) for a in (True, False) for b in (True, False) for c in (True, False)]
 MEDIA = "text/x.cucumber.gherkin+plain"
 
@@ -43,6 +43,7 @@ def plan(tier, seed):
     specs = shards("sources", 2000 if q else 100000, 200 if q else 4000, seed)
     specs += shards("streams", 400 if q else 20000, 50 if q else 1000, seed)
     specs += [{"family": "corpus", "seed": seed, "n": 1}, {"family": "files", "seed": seed, "n": 1, "count": 12 if q else 200},
+              {"family": "isolation", "seed": seed, "n": 1, "sample": 12 if q else 150},
               {"family": "f1", "seed": seed, "n": 1}]
     return specs
 
@@ -287,19 +288,28 @@ def run_files(spec, M):
         M.violation("C17.source_event", {"what": "SourceEvents does not yield the source envelopes of the paths, in the order given",
                                          "got_uris": [short(e.get("source", {}).get("uri"), 60) for e in evs][:8]}, {"kind": "file", "text": ""})
     # CLI on the temp files, three option combinations
-    env = dict(os.environ, PYTHONPATH=PY_ROOT, PYTHONDONTWRITEBYTECODE="1", PYTHONIOENCODING="utf-8")
-    for flags, opts in (([], (True, True, True)), (["--no-source"], (False, True, True)), (["--no-ast", "--no-pickles"], (True, False, False)),
-                        (["--no-source", "--no-ast"], (False, False, True))):
+    base_env = dict(os.environ, PYTHONPATH=PY_ROOT, PYTHONDONTWRITEBYTECODE="1")
+    for k in ("PYTHONIOENCODING", "PYTHONUTF8", "LC_ALL", "LANG", "PYTHONCOERCECLOCALE"):
+        base_env.pop(k, None)
+    # the script's output is JSON with ASCII escapes: it must come out the same whatever encoding stdout has
+    stdouts = [("utf-8", {"PYTHONIOENCODING": "utf-8"}), ("ascii", {"PYTHONIOENCODING": "ascii"}), ("latin-1", {"PYTHONIOENCODING": "latin-1"}),
+               ("cp1252", {"PYTHONIOENCODING": "cp1252"}), ("C locale", {"LC_ALL": "C", "PYTHONUTF8": "0", "PYTHONCOERCECLOCALE": "0"})]
+    runs = [([], (True, True, True), so) for so in stdouts] + [(fl, op, stdouts[0]) for fl, op in (
+        (["--no-source"], (False, True, True)), (["--no-ast", "--no-pickles"], (True, False, False)), (["--no-source", "--no-ast"], (False, False, True)))]
+    for flags, opts, (so_name, so_env) in runs:
+        env = dict(base_env, **so_env)
         sel = paths[:4] + paths[-len(HOSTILE_FILES):]
         pr = subprocess.run([sys.executable, "-B", "-m", "scripts.generate_events"] + flags + sel, cwd=PY_ROOT, env=env, capture_output=True, timeout=300)
         M.count("cli_runs")
+        M.hist("cli_stdout_encoding", so_name)
+        case = {"kind": "cli", "flags": flags, "stdout": so_name}
         if pr.returncode != 0:
-            M.violation("C17.cli", {"what": "scripts.generate_events failed", "stderr": pr.stderr.decode("utf8", "replace")[-300:]}, {"kind": "cli", "flags": flags})
+            M.violation("C17.cli", {"what": "scripts.generate_events failed (stdout encoding: %s)" % so_name, "stderr": pr.stderr.decode("utf8", "replace")[-300:]}, case)
             continue
         try:
-            got = [json.loads(l) for l in pr.stdout.decode("utf8").split("\n") if l.strip()]
+            got = [json.loads(l) for l in pr.stdout.decode("ascii").split("\n") if l.strip()]
         except Exception as e:
-            M.violation("C17.cli", {"what": "CLI output is not JSON lines", "error": repr(e)[:100]}, {"kind": "cli", "flags": flags})
+            M.violation("C17.cli", {"what": "CLI output is not ASCII JSON lines (stdout encoding: %s)" % so_name, "error": repr(e)[:100]}, case)
             continue
         ge = GherkinEvents(GherkinEvents.Options(*opts))
         want = []
@@ -308,10 +318,45 @@ def run_files(spec, M):
         want = json.loads(json.dumps(want))
         M.count("cli_envelopes_compared", len(want))
         if got != want:
-            M.violation("C17.cli", {"what": "CLI prints other envelopes than GherkinEvents.enum yields", "flags": flags,
-                                    "got_n": len(got), "want_n": len(want)}, {"kind": "cli", "flags": flags})
+            M.violation("C17.cli", {"what": "CLI prints other envelopes than GherkinEvents.enum yields", "flags": flags, "stdout": so_name,
+                                    "got_n": len(got), "want_n": len(want)}, case)
     for p in paths:
         os.remove(p)
+
+
+def run_isolation(spec, M):
+    """'Each source's envelopes depend only on that source and the running id counter' — also not on anything the PROCESS
+    has seen before: [A, B] through one stream in a fresh interpreter against [B] alone in another fresh interpreter, for
+    the ordered pairs of dialects that list one word in different roles (plus sampled pairs), A and B using every keyword."""
+    from .c15 import dialect_doc, colliding_pairs
+    from .. import dialects as dl
+    r = rng(spec["seed"], ID, "isolation")
+    names = sorted(dl.master())
+    pairs = colliding_pairs() + [tuple(r.sample(names, 2)) for _ in range(spec["sample"])]
+    solo = {}
+    docs = {}
+    for d in sorted({b for _, b in pairs}):
+        docs[d] = dialect_doc(d)
+    out = observe.isolated_stream([("b.feature", docs[d]) for d in sorted(docs)], fresh_per_source=True)
+    if out is None:
+        M.inconc("isolated worker failed (solo documents)")
+        return
+    solo = dict(zip(sorted(docs), out))
+    # all pairs in as few processes as possible would let earlier pairs influence later ones: one process per pair
+    for a, b in pairs:
+        M.case(h64(["isolation", a, b]))
+        M.count("isolated_streams")
+        res = observe.isolated_stream([("a.feature", dialect_doc(a)), ("b.feature", docs[b])])
+        if res is None:
+            M.inconc("isolated worker failed for %s,%s" % (a, b))
+            continue
+        ids_a = [int(x) for x in all_ids(res[0]) if str(x).isdigit()]
+        off = 1 + max(ids_a) if ids_a else 0
+        want = shift(solo[b], off)
+        M.count("isolated_envelopes_compared", len(want))
+        if res[1] != want:
+            M.violation("C17.stream", {"what": "envelopes of a source that follows a source in dialect %s differ from the envelopes the same source gets in a process that has seen nothing else (shifted by the ids drawn before it)" % a,
+                                       "dialects": [a, b], "got": short(res[1], 300), "want": short(want, 300)}, {"kind": "isolation", "a": a, "b": b})
 
 
 def run_f1(M):
@@ -342,6 +387,8 @@ def run_shard(spec, M):
         run_corpus(M)
     elif fam == "files":
         run_files(spec, M)
+    elif fam == "isolation":
+        run_isolation(spec, M)
     elif fam == "f1":
         run_f1(M)
 
@@ -358,5 +405,7 @@ def replay(case, M):
         check_stream(case["sources"], tuple(case["options"]), M, case)
     elif k == "corpus":
         run_corpus(M)
+    elif k == "isolation":
+        run_isolation({"seed": 0, "sample": 0}, M)
     else:
         run_files({"seed": 0, "count": 12}, M)
